@@ -8,7 +8,8 @@ import Aergo.Model.Determ
     vadd <hexid> <amount>             vpr.add (prepare)                        ⇒ ok
     vsub <hexid> <amount>             vpr.sub (prepare)                        ⇒ ok
     vapply                            vpr.apply                                ⇒ total, powers, buckets, pending
-    gather <tok> ...                  per candidate ok | err | ok! | err! | tmo | vmtmo | - ⇒ picked indexes, validator verdict
+    gather <tok> ...                  per candidate ok | err | xtmo (each optionally with ^ or !) | tmo | vmtmo | - ⇒ picked indexes, validator verdict
+    reward <hdr> <local> <fee>        header coinbase, the validating node's own coinbase ("-" = none), fees of the block ⇒ credits
 -/
 open Aergo Aergo.DriverLib Aergo.Determ
 
@@ -51,27 +52,31 @@ def showVpr (s : Sess) : String :=
     if b.isEmpty then none else some s!"{i}={showKL b}"
   s!"total={s.v.total} powers={showKL s.v.powers} buckets=\{{" ".intercalate bs}} pending={s.changes.length}"
 
-/-- A token: what the block factory's checks said and whether the tx executed successfully; `!` = the
-block-generation context expired (deadline) or was cancelled (shutdown) *while* this candidate executed. -/
-def parseTok : String → Option (Option (Pre × Bool) × Bool)
-  | "ok" => some (some (.go, true), false)
-  | "err" => some (some (.go, false), false)
-  | "ok!" => some (some (.go, true), true)
-  | "err!" => some (some (.go, false), true)
-  | "tmo" => some (some (.tmo, false), false)
-  | "vmtmo" => some (some (.vmtmo, false), false)
+/-- A token: what the block factory's checks said, whether the context had ended when the execution started, and
+the class of the executor's answer (`ok`, `err`, `xtmo` = `VmTimeoutError` from inside the VM after the call
+started); suffix `^` = the block-generation context expired (deadline) or was cancelled (shutdown) after
+`checkBGTimeout` let this candidate pass and *before* it executed, suffix `!` = *while* it executed. -/
+def parseTok (w : String) : Option (Option (Pre × Bool × Out) × Bool) :=
+  let core (c : String) : Option Out := match c with
+    | "ok" => some .ok | "err" => some .fail | "xtmo" => some .timeout | _ => none
+  match w with
+  | "tmo" => some (some (.tmo, false, .fail), false)
+  | "vmtmo" => some (some (.vmtmo, false, .fail), false)
   | "-" => some (none, false)
-  | _ => none
+  | _ =>
+    if w.endsWith "^" then (core (String.ofList w.toList.dropLast)).map (fun o => (some (.go, true, o), true))
+    else if w.endsWith "!" then (core (String.ofList w.toList.dropLast)).map (fun o => (some (.go, false, o), true))
+    else (core w).map (fun o => (some (.go, false, o), false))
 
 /-- `checkBGTimeout` runs in front of every candidate: once the context is done no further candidate is
 executed (deadline: the loop stops; cancellation: every remaining candidate is refused with `ErrQuit`). A
 candidate the harness never saw executing (`-`) is treated the same way. -/
-def mkCands : Bool → Nat → List (Option (Pre × Bool) × Bool) → List (Pre × (Nat × Bool))
+def mkCands : Bool → Nat → List (Option (Pre × Bool × Out) × Bool) → List (Pre × Bool × (Nat × Out))
   | _, _, [] => []
   | expired, i, (t, ex) :: rest =>
-    let c : Pre × (Nat × Bool) := match expired, t with
-      | false, some (p, ok) => (p, (i, ok))
-      | _, _ => (.tmo, (i, false))
+    let c : Pre × Bool × (Nat × Out) := match expired, t with
+      | false, some (p, d, o) => (p, d, (i, o))
+      | _, _ => (.tmo, false, (i, .fail))
     c :: mkCands (expired || ex) (i + 1) rest
 
 def c02Step (s : Sess) (line : String) : Sess × String :=
@@ -105,12 +110,30 @@ def c02Step (s : Sess) (line : String) : Sess × String :=
     | some ts =>
       -- candidates after the stop may be unknown ("-"): they are never looked at
       let cands := mkCands false 0 ts
-      let exec : Unit → (Nat × Bool) → Bool × Unit × Nat := fun _ t => (t.2, (), t.1)
-      let g := gather exec () cands
-      let verdict := match validate exec () g.1 with
+      -- the scripted executor: the recorded class of the candidate, whatever the environment
+      let exec : Env Unit → Unit → (Nat × Out) → Out × Unit × Nat := fun _ _ t => (t.2, (), t.1)
+      let g := gather exec () () cands
+      let verdict := match validate exec () () g.1 with
         | some _ => "accept"
         | none => "reject"
       (s, s!"{if g.1.isEmpty then "-" else " ".intercalate (g.1.map fun t => toString t.1)} {verdict}")
+    | none => (s, "bad-op")
+  | ["reward", h, l, fee] =>
+    -- a validator whose own configured coinbase account is `l` executes a block whose header names `h` and whose
+    -- transactions paid `fee`: who is credited (sendRewardCoinbase: nothing when the fee is 0 or there is no account)
+    match fee.toNat? with
+    | some fee =>
+      let acct (w : String) : Option String := if w == "-" then none else some w
+      let reward : Option String → List (String × Nat) → List (String × Nat) := fun k st =>
+        match k with
+        | some a => if fee = 0 then st else (a, fee) :: st
+        | none => st
+      let exec : Env (Option String) → List (String × Nat) → Unit → Out × List (String × Nat) × Unit :=
+        fun _ st _ => (.ok, st, ())
+      let bal (st : List (String × Nat)) (w : String) : Nat := (st.filter (fun e => e.1 == w)).foldl (fun a e => a + e.2) 0
+      match validateBlock exec reward (acct l) [] ⟨acct h, []⟩ with
+      | some (st, _) => (s, s!"hdr+{bal st h} local+{bal st l}")
+      | none => (s, "reject")
     | none => (s, "bad-op")
   | _ => (s, "bad-op")
 
